@@ -2791,6 +2791,13 @@ impl<'a> Tyck<'a> for TyEnvT<su::PatId> {
                     | Switch::Syn => tycker
                         .err_k(TyckError::MissingAnnotation, std::panic::Location::caller())?,
                     | Switch::Ana(ann) => {
+                        // A hole stands for a value like a variable does: its type is
+                        // a value type.
+                        if let AnnId::Type(ty) = ann {
+                            let vtype = ss::VType.build(tycker, &self.info);
+                            let kd = tycker.statics.type_kind(ty);
+                            Lub::lub_k(vtype, kd, tycker)?;
+                        }
                         let ann = PatternLeaf::Hole.materialize(tycker, &self.info, ann);
                         self.mk(PatternCheck::new(ann))
                     }
